@@ -50,6 +50,19 @@ CHECKS["C14"] = dict(
     note="apimachinery list classification is modelled. 'list without resourceVersion accessor' is unreachable in the code (executeList rejects non-meta.List first).",
     design="6/C14", technique="Coq proof (decision function + step-function invariants over all input sequences) + fault-enumeration correspondence in virtual time")
 
+CHECKS["C05"] = dict(
+    text="Publisher/subscription model (bounded FIFO, atomic enqueue-or-drop-newest, dynamic Subscribe): edge_invariant proved inductive over every sequence of publications, subscriptions and reads; subscriber_sees_exact_suffix (no duplicate, omission, reordering while nothing dropped); leaf_receives_suffix composes it along a path of clones of ANY depth; cache_not_older_after_event on the cache model. Correspondence: Subscribe/Clone trees to depth 3 on a real controller fed by the fake watch in virtual time, subscriptions at barriers and racing, perturbed schedules: every subscriber's sequence vs the reference subscriber (suffix; exact start for barrier-created ones, also via the extracted expected_suffix), no event before Ready, Get after an event.",
+    note="Channel semantics modelled. No drops in the harness runs (<= EventBufsiz/4 in flight).",
+    design="6/C05", technique="Coq proof (inductive edge invariant + composition over clone depth) + differential correspondence on real Subscribe/Clone trees in virtual time")
+CHECKS["C10"] = dict(
+    text="On the same pipeline model: drop_is_local (publishing treats each subscription independently of the others' capacity, backlog and reads), push is total (never blocks) and drops the newest when full, stalled_receives_subsequence, never_reading_gets_first_cap (exactly the first EventBufsiz events), healthy siblings keep the exact-suffix guarantee. Correspondence: a tree with healthy, never-reading and slow consumers at every position (direct, below a clone, below a filtered clone, directly-read filtered subscription, monitor with a blocking handler), streams 0..4x EventBufsiz: healthy consumers complete, caches current, stalled consumer gets exactly the first 100, slow ones a subsequence, no hang.",
+    note="Typed subscription stalls are exercised in C20. The harness oracles are evaluated on the implementation directly.",
+    design="6/C10", technique="Coq proof (locality/totality lemmas, subsequence and first-cap invariants) + stalled-consumer scenarios in virtual time")
+CHECKS["C16"] = dict(
+    text="monitor.run as a sequential program over Ready/Done/Events: for every input sequence the callback log is empty or OnInitialize(content at readiness) followed by exactly one callback per received event in order; OnInitialize once and first; nothing after Done; nothing at all if never ready; every model log passes the checker monitor_log_ok. Correspondence: untyped monitors on a real controller in virtual time, handler durations 0/1ms/50ms, Close at {never, before ready, mid-stream, during a handler, end}: callback log vs published events (type, object, order), overlap detection, Done at each callback; the log is checked by the extracted monitor_log_ok.",
+    note="Typed monitors are covered with C20. Serial execution is by construction in the model and observed in the implementation.",
+    design="6/C16", technique="Coq proof (log-shape theorem over all input sequences) + callback-log correspondence in virtual time")
+
 PENDING = {}
 
 def main():
@@ -93,6 +106,6 @@ def main():
     }
     json.dump(m, open(os.path.join(ROOT, "MANIFEST.json"), "w"), indent=1)
 
-HOOK_COMMITS = ["f59e4bd", "32e7e09", "a7bf96a"]
+HOOK_COMMITS = ["f59e4bd", "32e7e09", "a7bf96a", "00beef9"]
 if __name__ == "__main__":
     main()
